@@ -283,6 +283,19 @@ def cases(M):
                     continue
                 for _ in range(per):
                     yield {"k": "land", "z": zn, "w": w, "ti": i, "pk": pk, "amt": _amount(r), "via": r.randrange(6)}
+    # the wall time after the year/month step alone is skipped in the zone, the remaining units move out of the gap again:
+    # only the final wall-clock value may be normalised
+    for zn in (zones if thorough else zones[:6]) + ["Europe/Paris", "America/New_York"][M.shard % 2:][:1]:
+        z = tzdb.Z.get(zn)
+        gaps = [(t, ob, oa) for (t, ob, oa, _) in z.trans if oa > ob and 1950 < 1970 + t // 31556952 < 2036]
+        for t, ob, oa in gaps[-(8 if thorough else 3):]:
+            w = (t + ob) * US + r.randrange(1, (oa - ob) * US)
+            nmo = r.choice((1, 2, 3, 12, -1, -2, 13))
+            amt = [nmo // 12 if abs(nmo) >= 12 else 0, nmo % 12 if nmo > 0 else -((-nmo) % 12), r.choice((0, 0, 1)), r.choice((1, -1, 2, 0)),
+                   r.choice((0, 0, 5, -3)), 0, 0, 0]
+            if not any(amt[2:]):
+                amt[3] = 1
+            yield {"k": "midgap", "z": zn, "w": w, "amt": amt, "via": r.randrange(6)}
     # month shapes in UTC / naive / fixed / Date
     reps = 8 if thorough else 1
     for y in (1999, 2000, 2019, 2020, 2100, 1, 9998, 1600, 1800, 2200, 1900, 2400, 1000, 200) if thorough else (1999, 2000, 2020, 2100, 1, 9998, 1800, 2200, 1000):
@@ -322,6 +335,21 @@ def run(M, c):
             return
         x = gen.mk(c["z"], exp[1])
         key = (c["z"], c["ti"], c["pk"])
+    elif c["k"] == "midgap":
+        # start = the gap's wall time moved back by the year/month part (same time of day), when that exists once
+        f = us_to_fields(c["w"])
+        sm0 = cal.shift_months(f[0], f[1], f[2], -amt[0], -amt[1])
+        if sm0 is None:
+            return
+        fwd = cal.shift_months(sm0[0], sm0[1], sm0[2], amt[0], amt[1])
+        if fwd is None or tuple(fwd) != tuple(f[:3]):
+            return                      # clamping: the forward shift does not come back to the gap day
+        sw = wall_us(dt.datetime(*sm0, *f[3:]))
+        exp, cls = c02.expect(("iana", c["z"]), sw, 1, False)
+        if exp[0] != "value" or cls != "once":
+            return
+        x = gen.mk(c["z"], exp[1])
+        key = ("midgap", c["z"])
     elif c["k"] == "shape":
         H = us_to_fields(c["tod"])[3:]
         y, mo, d = c["y"], c["mo"], c["d"]
